@@ -7,11 +7,33 @@ spec/trace/Trace_XzLayout.tla (IsEvent idiom, TraceReset between traces,
 TraceAccepted post-condition).  The final event of every trace carries the
 terminal conditions observed on real code: litonlylzma's own Decode, `xz -dc`,
 and the Wuffs std/lzma / std/xz decoders compiled from C that is generated from
-the working tree.  Totality of Decode: a table of calls on arbitrary /
-truncated / mutated inputs, every row an initial state of
-spec/LzmaExpansion.tla (no panic, |out| <= 42 * |in|, the multiple derived and
-TLC-checked in that module).  The layout specifications are also model-checked
-on their own as generators (XzLayoutGen.tla, LzmaAlone!LGenSpec).
+the working tree.
+
+The range coder is part of the specification, at true width
+(spec/RangeCoder.tla: 33-bit low, 32-bit range/code in exact split arithmetic,
+11-bit probabilities, the literal layer with lc=3 lp=0 pb=2, the .lzma and
+LZMA2 framings).  It is model-checked on its own (RangeCoderMC: round trip of
+all short decision sequences from the reset state and from extreme encoder
+states) and bound to the code three ways:
+  rows    every payload of an exhaustive-by-structure family is encoded by the
+          real code; TLC decodes the encoded FILE with the specification's
+          decoder (RangeCoderRows: returns the payload, consumes exactly the
+          range-coded bytes, ends with code = 0) and checks what
+          litonlylzma.Decode, one `xz -dc` over the concatenated streams and
+          the Wuffs decoders (one batch process) said about every row;
+  rare    payloads that drive the specification's encoder into its rare states
+          (low = 2^32 exactly at a ShiftLow, a carry into pending 0xFF bytes,
+          ...) are derived by TLC (RangeCoderReach; recorded in
+          RangeCoderRare.tla, re-confirmed every run, re-derived in the thorough
+          tier) and go through rows and traces;
+  flip    payloads bisected onto the compressed/uncompressed chunk choice of
+          the .xz encoder (the 16-bit packed-size field) go through traces.
+
+Totality of Decode: a table of calls on arbitrary / truncated / mutated inputs,
+every row an initial state of spec/LzmaExpansion.tla (no panic, |out| <= 42 *
+|in|, the multiple derived and TLC-checked in that module).  The layout
+specifications are also model-checked on their own as generators
+(XzLayoutGen.tla, LzmaAlone!LGenSpec).
 """
 import json, os, re, shutil, threading, hashlib
 import vlib
@@ -19,9 +41,9 @@ from vlib import ToolingError
 
 META = {
     "level": "exploration",
-    "technique": "TLA+ container specifications (XzLayout, LzmaAlone) used as trace acceptors for the events an independent walker parses out of Encode's output, with the round-trip / xz / Wuffs-decoder outcomes as terminal conditions of each trace; table validation of Decode calls against a TLC-checked expansion bound (LzmaExpansion); the layout specs model-checked alone as generators",
-    "text": "Payload classes from the specification's boundary analysis (lengths 0..5, 64 KiB +-1, 128 KiB +-1, 2 MiB +-1 in thorough, seeded lengths; all-0x00, all-0xFF, incompressible, text, alternating, 0xFF runs, and payloads steered into long pending-0xFF chains resolved with and without a carry) x {LZMA, XZ}: every encoded file is parsed field by field and accepted by TLC, decoded back by litonlylzma with no remainder, by xz 5.8 and by the Wuffs lzma/xz decoders generated from the working tree. Decode is called on arbitrary, truncated and mutated inputs under recover and a watchdog; TLC checks no panic and |out| <= 42*|in| on every row.",
-    "note": "Sampling, not exhaustive, over payloads. Trusted: TLC, the walker (written from the format documents, not from litonlylzma), Go's hash/crc32, the xz binary, gcc. The range coder itself is not modelled (DESIGN C17 stated limit); carry chains are exercised by steered payloads and judged by three decoders. An owed end-of-stream marker (unknown-size .lzma) cannot be seen by the walker and is left to the decoders; litonlylzma never emits that form.",
+    "technique": "TLA+ specifications as acceptors of what the real encoder wrote: (1) a true-width model of the LZMA range coder and literal coder (RangeCoder.tla; 33-bit low / 32-bit range in exact split arithmetic), model-checked alone (round trip of all short decision sequences from the reset state and from extreme encoder states, encoder invariant) and used by TLC as an independent decoder of every file of exhaustive-by-structure payload families (table validation, RangeCoderRows); (2) container specifications (XzLayout, LzmaAlone) as trace acceptors for the events an independent walker parses out of Encode's output, with the round-trip / xz / Wuffs-decoder outcomes as terminal conditions; (3) table validation of Decode calls against a TLC-checked expansion bound (LzmaExpansion); payloads are spec-directed: a TLC reachability query over the specification's encoder yields the payloads that reach the rare carry states, a bisection on the chunk-choice rule yields the payloads at the 16-bit packed-size boundary",
+    "text": "Rows (every one decoded by TLC with the specification's range decoder, by litonlylzma.Decode, by xz over the concatenated streams and by the Wuffs decoders): quick = .lzma of every payload of length 0 and 1 and of every two-byte payload (a, b) with b in the spec-derived boundary set (22 values, all 256 a), the same as .xz (stored chunks), .xz of (a, b) + 30 zero bytes (the least padding that makes litonlylzma emit an LZMA chunk) for b in {0xBE, 0x01}, and the rare payloads; thorough = ALL 65793 payloads of length <= 2 in both formats, ALL 65536 two-byte prefixes + 30 zeros as .xz, the boundary set + 256 zeros. Traces: payload classes from the container specification's boundary analysis (lengths 0..5, 64 KiB +-1, 128 KiB +-1, 2 MiB +-1 in thorough, seeded lengths; all-0x00, all-0xFF, incompressible, text, alternating, 0xFF runs, steered pending-0xFF chains), the rare payloads, and every N within +-24 of the point where the last chunk (N random bytes then zeros; 64 KiB single / second chunk, shorter) flips between LZMA and uncompressed; each file is parsed field by field and accepted by TLC, decoded by litonlylzma, xz 5.8 and the Wuffs decoders. Decode is called on arbitrary, truncated and mutated inputs under recover and a watchdog; TLC checks no panic and |out| <= 42*|in| on every row.",
+    "note": "Exhaustive over payloads of length <= 2 (thorough) and over the boundary family (quick); sampling beyond. Rare encoder states reached on real code: low = 2^32 exactly at a ShiftLow (in the flush: 30 two-byte payloads; while coding: those + zeros), carry into one and into two pending 0xFF bytes, pending runs (longer runs through the steered chain classes); range = 2^24 - 1 and a cache byte 0xFF are covered by the model only (RangeCoderMC starts), no payload of length <= 4 reaches them. Trusted: TLC, the walker (written from the format documents, not from litonlylzma), Go's hash/crc32, the xz binary, gcc. The specification's coder is the reference coder of the LZMA specification, not a transcription of litonlylzma (whose shiftLow is organised differently). An owed end-of-stream marker (unknown-size .lzma) cannot be seen by the walker and is left to the decoders; litonlylzma never emits that form.",
 }
 
 XZ = "/root/miniconda/bin/xz"
@@ -72,6 +94,31 @@ PROB_CFG = """SPECIFICATION ProbSpec
 CONSTANTS
   RowsFile = "none.json"
 INVARIANT ProbClamp
+CHECK_DEADLOCK FALSE
+"""
+
+MC_CFG = """SPECIFICATION Spec
+CONSTANTS
+  MaxN = %d
+  Extreme = %s
+  Slim = %s
+INVARIANTS EncoderInv RoundTrip ProbInv FirstByteZero
+CHECK_DEADLOCK FALSE
+"""
+
+REACH_CFG = """SPECIFICATION %s
+CONSTANTS
+  MaxLen = %d
+  FullLen = %d
+  RtLen = %d
+INVARIANTS RoundTripOK EncoderOK Report %s
+CHECK_DEADLOCK FALSE
+"""
+
+RCROWS_CFG = """SPECIFICATION Spec
+CONSTANTS
+  RowsFile = "rows.json"
+INVARIANTS %s
 CHECK_DEADLOCK FALSE
 """
 
@@ -304,8 +351,269 @@ def check_totality(ctx, binp):
     return nrows, st
 
 
+# ------------------------------------------------- range coder: rare payloads
+def reach_events(out):
+    """The (kinds, cp, pend, pay) objects RangeCoderReach!Report printed."""
+    return [o for o in vlib.parse_tlc_prints(out) if isinstance(o, dict) and "kinds" in o and "pay" in o]
+
+
+def select_rare(evs):
+    """The deterministic selection rule that turns the answer of the full
+    reachability query into spec/RangeCoderRare.tla!RarePayloads (order kept)."""
+    sel = []
+
+    def take(kind, pred, n, tail=0):
+        c = sorted([o for o in evs if kind in o["kinds"] and pred(o)], key=lambda o: (len(o["pay"]), o["pay"]))
+        for o in c[:n] + (c[-tail:] if tail and len(c) > n else []):
+            x = (kind, tuple(o["pay"]))
+            if x not in sel:
+                sel.append(x)
+    take("exact32_flush", lambda o: True, 1000)
+    take("exact32", lambda o: o["pay"][-1] in (0, 7), 1000)
+    take("carry_pend_flush", lambda o: len(o["pay"]) == 2, 8, 2)
+    take("carry_pend_flush", lambda o: o["cp"] >= 2, 6)
+    take("carry_pend", lambda o: True, 6)
+    take("pend_flush", lambda o: len(o["pay"]) == 1, 4)
+    take("pend_flush", lambda o: len(o["pay"]) == 2, 8)
+    take("pend", lambda o: o["pend"] >= 2, 6)
+    take("eq24", lambda o: True, 4)
+    take("m24", lambda o: True, 4)
+    take("cacheff", lambda o: True, 4)
+    return sel
+
+
+def boundary_seconds(evs):
+    return sorted({o["pay"][1] for o in evs if len(o["pay"]) == 2 and set(o["kinds"]) - {"eq24"}} | {0x55, 0x7F, 0xAA, 0xFE, 0xFF})
+
+
+def rare_module_text(sel, seconds):
+    """For the maintainer: the RarePayloads / BoundarySeconds definitions to
+    paste into spec/RangeCoderRare.tla when the specification changed."""
+    return "RarePayloads == <<\n" + ",\n".join('    <<"%s", <<%s>>>>' % (k, ", ".join(map(str, p))) for k, p in sel) + \
+           "\n>>\nBoundarySeconds == {%s}\n" % ", ".join(map(str, seconds))
+
+
+def rare_side(ctx, box, errors):
+    """Quick: TLC confirms every recorded (kind, payload) against the
+    specification's encoder.  Thorough: additionally the full reachability
+    query is run and must reproduce the recorded list."""
+    try:
+        res = ctx.tlc_ok("RangeCoderReach", cfg="confirm.cfg", data={"confirm.cfg": REACH_CFG % ("ConfirmSpec", 0, 0, 0, "Confirmed")},
+                         workers=2, timeout=1500, heap="2g", label="RangeCoderReach: recorded rare payloads confirmed")
+        evs = reach_events(res["out"])
+        m = next((o for o in vlib.parse_tlc_prints(res["out"]) if isinstance(o, dict) and "boundary_seconds" in o), None)
+        if not evs or not m:
+            raise ToolingError("RangeCoderReach!ConfirmSpec printed no payloads / no boundary set:\n" + res["out"][-2000:])
+        seconds = sorted(m["boundary_seconds"])
+        small = sorted(m["boundary_seconds_small"])
+        kinds = {}
+        for o in evs:
+            for k in o["kinds"]:
+                kinds.setdefault(k, []).append(o["pay"])
+        box.update(payloads=[o["pay"] for o in evs], seconds=seconds, small=small, events=evs,
+                   reached={k: {"payloads": len(v), "shortest": min(v, key=lambda p: (len(p), p))} for k, v in sorted(kinds.items())},
+                   max_carry_into_pending=max(o["cp"] for o in evs), max_pending=max(o["pend"] for o in evs))
+        box["ready"].set()
+        if ctx.tier == "thorough":
+            res = ctx.tlc_ok("RangeCoderReach", cfg="reach.cfg", data={"reach.cfg": REACH_CFG % ("Spec", 4, 2, 2, "")},
+                             workers=4, timeout=3000, heap="4g",
+                             label="RangeCoderReach: every payload of length <= 2, directed search to length 4")
+            full = reach_events(res["out"])
+            sel = select_rare(full)
+            secs = boundary_seconds(full)
+            rec = []
+            m2 = re.findall(r'<<"(\w+)", <<([\d, ]+)>>>>', open(os.path.join(vlib.SPEC, "RangeCoderRare.tla")).read())
+            for k, p in m2:
+                rec.append((k, tuple(int(x) for x in p.split(","))))
+            if sel != rec or secs != seconds:
+                raise ToolingError("spec/RangeCoderRare.tla is stale: the reachability query now answers differently.  New definitions:\n"
+                                   + rare_module_text(sel, secs))
+            by = {}
+            for o in full:
+                for k in o["kinds"]:
+                    by.setdefault(k, {}).setdefault(len(o["pay"]), 0)
+                    by[k][len(o["pay"])] += 1
+            box["full_query"] = {"states": res["distinct"], "reported_events_by_kind_and_length": by,
+                                 "note": "inside the directed subtrees (length 3, 4) only every 16th single-pending event is reported"}
+    except Exception as e:  # noqa
+        errors.append(e)
+        box["ready"].set()
+
+
+# ------------------------------------------------------- range coder: rows
+def rows_families(ctx, box):
+    sec = ".".join(map(str, box["seconds"]))
+    small = ".".join(map(str, box["small"]))
+    if ctx.tier == "thorough":
+        return "lzma2,xz2,xzz30,xzz256/" + small
+    return "lzma2/%s,xz2/%s,xzz30/190.1" % (sec, sec)
+
+
+def hexrows(box):
+    out = []
+    for p in box["payloads"]:
+        h = bytes(p).hex()
+        out += [h, h + ":30"]
+    return ",".join(out)
+
+
+def row_desc(row):
+    fm = "xz" if row[0] == 2 else "lzma"
+    pre = bytes(row[7:7 + row[2]])
+    return fm, pre, row[1], bytes(row[7 + row[2]:])
+
+
+RT_TEXT = {1: "returned the payload", 2: "returned an error", 3: "returned other bytes", 4: "panicked", 5: "(Encode itself failed)"}
+
+
+def row_what(row, verdict):
+    fm, pre, z, enc = row_desc(row)
+    bad = []
+    if verdict not in ("ok", "unmodelled"):
+        bad.append("the specification's range decoder (RangeCoder.tla) says '%s'" % verdict)
+    if row[3] != 1 or row[4] != 0:
+        bad.append("litonlylzma.Decode %s, %d bytes left over" % (RT_TEXT.get(row[3], "?"), row[4]))
+    if row[5] == 0:
+        bad.append("xz -dc does not give the payload back")
+    if row[6] == 0:
+        bad.append("the Wuffs decoder does not give the payload back")
+    return "litonlylzma %s of payload %s%s (%d bytes) -> %d-byte file %s: %s" % (
+        fm, pre.hex() or "(empty)", " + %d zero bytes" % z if z else "", len(pre) + z, len(enc), enc.hex()[:200], "; ".join(bad))
+
+
+def tlc_rows(ctx, text, label, invs="DecodesTo Modelled ImplRoundTrip IndependentOK", workers=2):
+    res = ctx.tlc("RangeCoderRows", cfg="rows.cfg", data={"rows.cfg": RCROWS_CFG % invs, "rows.json": text},
+                  workers=workers, timeout=3000, heap="3g", label=label)
+    if res["error"]:
+        raise ToolingError("TLC error on %s:\n%s" % (label, res["error"]))
+    return res
+
+
+def survey(ctx, text, label):
+    """All rows of a file that any invariant rejects: [(k, verdict)]."""
+    res = tlc_rows(ctx, text, label, invs="Survey")
+    if res["violated"]:
+        raise ToolingError("Survey is never false:\n" + res["out"][-2000:])
+    out = []
+    for m in re.finditer(r'<<"ROW-SURVEY", (\d+), "(\w+)", (\d+), (\d+), (\d+), (\d+)>>', res["out"]):
+        out.append((int(m.group(1)), m.group(2)))
+    return sorted(out), res
+
+
+def reproduce_row(ctx, binp, drv, row, verdict_seen):
+    """Encode the payload again, alone, with the per-file decoders; TLC must
+    reject the fresh row too.  Returns (row2, verdict2) or raises."""
+    fm, pre, z, enc = row_desc(row)
+    d = ctx.subdir("rowone")
+    outp = os.path.join(d, "row-%s.json" % vlib.sha(fm.encode() + pre + bytes([z % 256])))
+    r = ctx.run([binp, "-mode", "rowone", "-row", "%s:%s:%d" % (fm, pre.hex(), z), "-out", outp, "-xz", XZ, "-wuffs", drv], timeout=600)
+    if r.returncode != 0:
+        raise ToolingError("lzmareplay -mode rowone failed:\n" + r.stderr[-2000:])
+    text = open(outp).read()
+    row2 = json.loads(text)[0]
+    sv, _ = survey(ctx, text, "reproduce row %s:%s:%d" % (fm, pre.hex(), z))
+    if not sv:
+        raise ToolingError("row %s:%s:%d rejected in the table (%s) but accepted when encoded again alone" % (fm, pre.hex(), z, verdict_seen))
+    return row2, sv[0][1], json.loads(r.stdout.strip().splitlines()[-1])
+
+
+def rows_side(ctx, binp, drv, box, out, errors):
+    try:
+        d = ctx.subdir("rcrows")
+        nsh = 4 if ctx.tier == "thorough" else 2
+        r = ctx.run([binp, "-mode", "rows", "-family", rows_families(ctx, box), "-hexrows", hexrows(box), "-shards", str(nsh),
+                     "-outdir", d, "-xz", XZ, "-wuffs", drv], timeout=3000)
+        if r.returncode != 0:
+            raise ToolingError("lzmareplay -mode rows failed:\n" + r.stderr[-2000:])
+        st = json.loads(r.stdout.strip().splitlines()[-1])
+        ctx.log("range-coder rows: %d rows written (%s)" % (st["rows"], ", ".join("%s=%d" % kv for kv in sorted(st["by_family"].items()))))
+        texts = [open(f).read() for f in st["files"]]
+        results = [None] * len(texts)
+        errs = []
+
+        def one(i):
+            try:
+                results[i] = tlc_rows(ctx, texts[i], "RangeCoderRows: TLC decodes shard %d/%d" % (i + 1, len(texts)),
+                                      workers=3 if ctx.tier == "thorough" else 2)
+            except Exception as e:  # noqa
+                errs.append(e)
+        ths = [threading.Thread(target=one, args=(i,)) for i in range(len(texts))]
+        t0 = __import__("time").time()
+        for t in ths:
+            t.start()
+        for t in ths:
+            t.join()
+        if errs:
+            raise errs[0]
+        wall = __import__("time").time() - t0
+        decoded = 0
+        rejected = 0
+        reported = 0
+        for i, res in enumerate(results):
+            rows = json.loads(texts[i])
+            if not res["violated"]:
+                if "Model checking completed. No error has been found." not in res["out"]:
+                    raise ToolingError("TLC gave no verdict on row shard %d:\n%s" % (i, res["out"][-2000:]))
+                decoded += len(rows)
+                continue
+            if res["violated"] == "Modelled":
+                raise ToolingError("a row uses a legal feature that RangeCoder.tla does not decode (status 'unmodelled'); "
+                                   "the specification has to be extended:\n" + res["out"][-1500:])
+            sv, _ = survey(ctx, texts[i], "survey of shard %d after a rejection" % (i + 1))
+            if not sv:
+                raise ToolingError("shard %d violates %s but the survey lists no row" % (i, res["violated"]))
+            rejected += len(sv)
+            decoded += len(rows) - len(sv)
+            ctx.log("shard %d: TLC rejects %d of %d rows (%s); first: %s" % (
+                i + 1, len(sv), len(rows), res["violated"], [(row_desc(rows[k - 1])[0], row_desc(rows[k - 1])[1].hex(), rows[k - 1][1], v) for k, v in sv[:5]]))
+            for k, v in sv:
+                if reported >= 3:
+                    break
+                row = rows[k - 1]
+                row2, v2, detail = reproduce_row(ctx, binp, drv, row, v)
+                fm, pre, z, enc = row_desc(row2)
+                report(ctx, row_what(row2, v2), {
+                    "kind": "row", "key": "row:%s:%s:%d" % (fm, pre.hex(), z), "fmt": fm, "payload_prefix_hex": pre.hex(), "zeros": z,
+                    "spec_verdict": v2, "decode": RT_TEXT.get(row2[3]), "decode_remaining": row2[4], "xz": row2[5], "wuffs": row2[6],
+                    "encoded_hex": enc.hex(), "decoders": detail, "rows_rejected_in_this_shard": len(sv), "violated_invariant": res["violated"],
+                    "how": "bin/check C17 --replay <this file>  (encodes the payload with the working tree's litonlylzma and lets TLC decode the file with spec/RangeCoder.tla)",
+                })
+                reported += 1
+        out.update(rows=st["rows"], by_family=st["by_family"], decoded=decoded, rejected=rejected, wall_s=round(wall, 1),
+                   xz_processes=st["xz_processes"], xz_rows_with_lzma_chunk=st["xz_rows_with_lzma_chunk"],
+                   tlc_states=sum(r["distinct"] for r in results), shards=len(texts),
+                   rows_per_s=round(st["rows"] / max(wall, 0.1), 1))
+        # Self-test of the binding: damaged copies of one real row must all be rejected.
+        if rejected == 0:
+            out["canary"] = rows_canary(ctx, texts[0])
+    except Exception as e:  # noqa
+        errors.append(e)
+
+
+def rows_canary(ctx, text):
+    rows = json.loads(text)
+    base = next((r for r in rows if r[0] == 1 and r[2] == 2 and r[1] == 0 and r[7] > 1), None)
+    if base is None:
+        return 0
+    hdr = 7 + base[2]
+    dam = []
+    a = list(base); a[-1] = (a[-1] + 1) % 256; dam.append(("last range-coded byte + 1", a))
+    a = list(base); a[hdr + 14] ^= 0x40; dam.append(("one bit of the first code byte", a))
+    a = list(base)[:-1]; dam.append(("file one byte short", a))
+    a = list(base) + [0]; dam.append(("one byte appended", a))
+    a = list(base); a[3] = 3; dam.append(("Decode verdict", a))
+    a = list(base); a[6] = 0; dam.append(("Wuffs verdict", a))
+    sv, res = survey(ctx, json.dumps([base] + [x[1] for x in dam]), "canary: %d damaged copies of one row" % len(dam))
+    got = {k for k, _ in sv}
+    want = set(range(2, len(dam) + 2))
+    if got != want:
+        raise ToolingError("row acceptor self-test failed: damaged rows %s, TLC rejects %s" % (sorted(want), sorted(got)))
+    return {"damaged_rows_rejected": len(dam), "verdicts": {dam[k - 2][0]: v for k, v in sv}}
+
+
 # ------------------------------------------------------------------------ run
 covered = []
+rc_info = {}      # what the range-coder side measured (evidence)
 
 
 GEN_ACTIONS = ["GSHeader", "GBHeader", "GChunk", "GChunkEnd", "GBPad", "GCheck", "GIHead", "GIRec", "GIEnd", "GFooter", "GSPad", "GEof"]
@@ -342,14 +650,29 @@ def spec_level(ctx, errors):
         ctx.tlc_ok("LzmaAlone", cfg="lgen.cfg", data={"lgen.cfg": LGEN_CFG}, workers=2, timeout=1500, heap="2g", label="LzmaAlone generator")
         ctx.tlc_ok("LzmaExpansion", cfg="prob.cfg", data={"prob.cfg": PROB_CFG}, workers=2, timeout=1500, heap="2g",
                    label="LzmaExpansion ProbClamp + Window")
+        # The range coder on its own: Decoder(Encoder(decisions)) = decisions.
+        for (n, extreme, slim, what) in ([(14, False, False, "reset state, <= 14 decisions"), (7, True, False, "extreme states, <= 7 decisions")] if thorough
+                                         else [(10, False, True, "reset state, <= 10 decisions"), (3, True, True, "extreme states (slim family), <= 3 decisions")]):
+            res = ctx.tlc_ok("RangeCoderMC", cfg="mc.cfg", data={"mc.cfg": MC_CFG % (n, "TRUE" if extreme else "FALSE", "TRUE" if slim else "FALSE")},
+                             workers=4 if thorough else 2, timeout=3000, heap="3g", label="RangeCoderMC round trip (%s)" % what)
+            m = re.search(r'"MC-COVERAGE", (\[.*?\])', res["out"])
+            if extreme and m:
+                rc_info["mc_first_decision_coverage"] = {k: int(v) for k, v in re.findall(r"(\w+) \|-> (\d+)", m.group(1))}
     except Exception as e:  # noqa
         errors.append(e)
 
 
 def run(ctx):
+    # The machine is shared: keep every JVM's helper threads few.
+    ctx.env.setdefault("JAVA_TOOL_OPTIONS", "-XX:ParallelGCThreads=2 -XX:CICompilerCount=2")
     errors = []
     th = threading.Thread(target=spec_level, args=(ctx, errors))
     th.start()
+    rare = {"ready": threading.Event()}
+    rare_err = []
+    thr = threading.Thread(target=rare_side, args=(ctx, rare, rare_err))
+    thr.start()
+    threads = [th, thr]
     try:
         binp, drv = build_tools(ctx)
         ctx.log("tools built")
@@ -366,11 +689,34 @@ def run(ctx):
                 tot_err.append(e)
         th2 = threading.Thread(target=totality_side)
         th2.start()
+        threads.append(th2)
 
+        rare["ready"].wait()
+        if rare_err:
+            raise rare_err[0]
+        ctx.log("rare encoder states: %d recorded payloads confirmed by TLC (%s)" % (
+            len(rare["payloads"]), ", ".join("%s: %d" % (k, v["payloads"]) for k, v in rare["reached"].items())))
+        rows_out, rows_err = {}, []
+        th3 = threading.Thread(target=rows_side, args=(ctx, binp, drv, rare, rows_out, rows_err))
+        th3.start()
+        threads.append(th3)
+
+        # Rare payloads through the trace path as well: the shortest two of
+        # every kind, bare and followed by 30 zero bytes.
+        extra = []
+        seen_k = {}
+        for o in sorted(rare["events"], key=lambda o: (len(o["pay"]), o["pay"])):
+            for k in o["kinds"]:
+                if seen_k.get(k, 0) < 2 and k != "eq24":
+                    seen_k[k] = seen_k.get(k, 0) + 1
+                    h = bytes(o["pay"]).hex()
+                    for e in ("hex:%s@%d" % (h, len(o["pay"])), "hex:%s@%d" % (h, len(o["pay"]) + 30)):
+                        if e not in extra:
+                            extra.append(e)
         d = ctx.subdir("traces")
         tp, sp = os.path.join(d, "trace.ndjson"), os.path.join(d, "stats.json")
         r = ctx.run([binp, "-mode", "traces", "-tier", ctx.tier, "-seed", str(ctx.seed), "-out", tp, "-stats", sp,
-                     "-xz", XZ, "-wuffs", drv], timeout=3000)
+                     "-xz", XZ, "-wuffs", drv, "-extra", ",".join(extra)], timeout=3000)
         if r.returncode != 0:
             raise ToolingError("lzmareplay -mode traces failed:\n" + r.stderr[-2000:])
         stats = json.load(open(sp))
@@ -386,10 +732,17 @@ def run(ctx):
         nrows, tst = tot[0]
         ctx.log("Decode table: %d rows; largest observed |out|/|in| = %s" % (
             nrows, ("%d/%d" % (tst["max_ratio_out"], tst["max_ratio_in"])) if tst else "n/a"))
+        th3.join()
+        if rows_err:
+            raise rows_err[0]
+        ctx.log("range-coder rows: %d of %d decoded by TLC to their payloads (%d rejected) in %.0f s (%s rows/s, %d JVMs)" % (
+            rows_out["decoded"], rows_out["rows"], rows_out["rejected"], rows_out["wall_s"], rows_out["rows_per_s"], rows_out["shards"]))
+        thr.join()
+        if rare_err:
+            raise rare_err[0]
     finally:
-        th.join()
-        if "th2" in locals():
-            th2.join()
+        for t in threads:
+            t.join()
     if errors:
         raise errors[0]
 
@@ -401,9 +754,10 @@ def run(ctx):
     samples = []
     seen = set()
     for want in (("xz", "ff", 65537), ("xz", "random", 131073), ("lzma", "ff", 65536), ("xz", "zero", 0), ("xz", "text", 131072),
-                 ("xz", "chain", None), ("lzma", "chaincarry", None), ("xz", "ffrandom", None), ("xz", "alt", 1), ("xz", "random", 2097153)):
+                 ("xz", "chain", None), ("lzma", "chaincarry", None), ("xz", "ffrandom", None), ("xz", "alt", 1), ("xz", "random", 2097153),
+                 ("xz", "rz", 65536), ("xz", "trz", 131072), ("lzma", "hex", 2), ("xz", "hex", 32)):
         for t in tr:
-            if t["fmt"] == want[0] and t["class"] == want[1] and (want[2] is None or t["plen"] == want[2]) and t["id"] not in seen:
+            if t["fmt"] == want[0] and t["class"].split(":")[0] == want[1] and (want[2] is None or t["plen"] == want[2]) and t["id"] not in seen:
                 seen.add(t["id"])
                 samples.append({k: t[k] for k in ("fmt", "class", "plen", "pseed", "flen", "events", "chunks", "raw_chunks", "max_ff_run")})
                 break
@@ -411,14 +765,28 @@ def run(ctx):
     if first_xz:
         samples.append({"events_of_one_trace": [json.loads(l) for l in first_xz[1][:14]]})
     gen = [s for s in ctx.tlc_stats if s["label"].startswith("XzLayoutGen generator")]
+    flips = {}
+    for t in tr:
+        c = t["class"].split(":")
+        if c[0] in ("rz", "trz"):
+            f = flips.setdefault("%s len=%d seed=%d" % (c[0], t["plen"], t["pseed"]), {"n": [], "lzma_last_chunk": 0, "raw_last_chunk": 0})
+            f["n"].append(int(c[1]))
+            f["raw_last_chunk" if t["raw_chunks"] else "lzma_last_chunk"] += 1
+    for f in flips.values():
+        f["n"] = "%d..%d" % (min(f["n"]), max(f["n"]))
+    mc = [s for s in ctx.tlc_stats if s["label"].startswith("RangeCoderMC")]
+    samples.append({"row_decoded_by_tlc": "payload 02 be as .lzma: the flush starts with low = 2^32 exactly", "rare_payloads": rare["reached"]})
     ctx.evidence("exploration", {
-        "evaluations": len(tr) + (nrows or 0),
-        "distinct_nontrivial": len(distinct),
+        "evaluations": len(tr) + (nrows or 0) + rows_out["rows"],
+        "distinct_nontrivial": len(distinct) + rows_out["rows"] - 2,
         "rule": "a case is one (format, content class, length) payload that is encoded by the real code, walked into events, "
                 "validated by TLC against XzLayout/LzmaAlone and decoded by litonlylzma, xz and the Wuffs decoder; distinct = distinct "
                 "(format, class, length) triples; non-trivial = payload length > 0. Lengths: 0..5, 65535..65537, 131071..131073"
                 + (", 196609, 2 MiB-1..2 MiB+1, 2 MiB+65537" if ctx.tier == "thorough" else "")
                 + ", seeded lengths (small / < 5000 / 65536+-40 / < 192 KiB); classes zero, ff, random, text, alt, ffrandom, chain, chaincarry. "
+                  "Spec-directed classes: hex (payloads that the reachability query over the specification's encoder found to reach rare carry states), "
+                  "rz / trz (every N within +-24 of the point where the last chunk - N random bytes then zeros - flips between an LZMA and an uncompressed chunk). "
+                  "Range-coder rows: one (format, payload) per row, all distinct; the two empty payloads are the trivial ones. "
                   "Decode-table rows (arbitrary / header+arbitrary / every truncation / mutations / size bombs) are counted in evaluations only.",
         "samples": samples,
         "states": sum(t["distinct"] for t in ctx.tlc_stats),
@@ -437,13 +805,29 @@ def run(ctx):
         "expansion_multiple": 42,
         "generator_states": sum(g["distinct"] for g in gen) if gen else None,
         "generator_action_coverage": covered[0] if covered else None,
+        "range_coder": {
+            "rows_decoded_by_tlc": rows_out["decoded"], "rows_rejected": rows_out["rejected"], "rows_by_family": rows_out["by_family"],
+            "tlc_decode_rows_per_s": rows_out["rows_per_s"], "tlc_decode_wall_s": rows_out["wall_s"], "tlc_processes": rows_out["shards"],
+            "xz_rows_stored_in_lzma_chunks": rows_out["xz_rows_with_lzma_chunk"], "xz_processes_for_all_xz_rows": rows_out["xz_processes"],
+            "damaged_rows_selftest": rows_out.get("canary"),
+            "model_checking": [{k: m[k] for k in ("label", "distinct", "generated", "wall_s")} for m in mc],
+            "model_first_decision_coverage_of_extreme_starts": rc_info.get("mc_first_decision_coverage"),
+            "rare_states_reached_by_recorded_payloads": rare["reached"],
+            "largest_pending_run_resolved_by_a_carry": rare["max_carry_into_pending"], "largest_pending_run": rare["max_pending"],
+            "boundary_second_bytes": rare["seconds"],
+            "reachability_query": rare.get("full_query", "thorough tier only; quick confirms the recorded answers"),
+            "not_reached_by_payloads_up_to_length_4": ["range = 2^24 - 1 after a decision", "cache byte 0xFF"],
+        },
+        "chunk_choice_flip_windows": flips,
         "exhaustive": False,
     }, assumptions=[
         "the walker (harness/cmd/lzmareplay/walker.go) reports the fields of the file faithfully; it was written from xz-file-format.txt and the LZMA2 chunk table, not from litonlylzma",
         "the Check value is judged against the CRC-32/CRC-64/SHA-256 of the payload computed with Go's standard library",
         "xz 5.8.2 at /root/miniconda/bin/xz is a conformant full decoder; if it is absent the traces say xz_unavailable and only the Wuffs decoder and litonlylzma's own Decode are consulted",
         "the Wuffs decoders are built from C generated from the working tree's std/ by the working tree's cmd/wuffs and cmd/wuffs-c",
-        "the range coder is not modelled; carry propagation is exercised by payloads chosen with a generator-side model of a textbook range encoder and judged by the decoders",
+        "spec/RangeCoder.tla is the reference coder of the LZMA specification (written from the SDK's description, not from litonlylzma); its 16-bit-halves arithmetic is exact; a literal-only stream with a known size and no end marker must end with code = 0 and leave nothing of the segment unread",
+        "rows: the family is exhaustive only up to payload length 2 (and 2 + zero padding); longer payloads are sampled; long pending-0xFF chains are reached through the generator-side steering model of payload.go and judged by the three decoders",
+        "the concatenation of .xz streams decodes to the concatenation of the payloads (xz -dc); a row whose stream makes xz stop is found by offset and re-examined alone",
         "the expansion multiple 42 is derived in LzmaExpansion.tla (probability clamp model-checked, window lemma evaluated by TLC) and only checked, not proved, against the Go code on the table's rows",
     ])
 
@@ -451,8 +835,21 @@ def run(ctx):
 # --------------------------------------------------------------------- replay
 def replay(ctx, path):
     rep = json.load(open(path))["replay"]
+    ctx.env.setdefault("JAVA_TOOL_OPTIONS", "-XX:ParallelGCThreads=2 -XX:CICompilerCount=2")
     print(json.dumps({k: v for k, v in rep.items() if k not in ("events", "encoded_hex", "input_hex")}, indent=1))
     binp, drv = build_tools(ctx)
+    if rep.get("kind") == "row":
+        row = [2 if rep["fmt"] == "xz" else 1, rep["zeros"], len(rep["payload_prefix_hex"]) // 2, 0, 0, 2, 2] + list(bytes.fromhex(rep["payload_prefix_hex"]))
+        try:
+            row2, v2, detail = reproduce_row(ctx, binp, drv, row, rep.get("spec_verdict"))
+        except ToolingError as e:
+            if "accepted when encoded again alone" in str(e):
+                print("REPLAY: row accepted - not reproduced")
+                return
+            raise
+        print(json.dumps(detail))
+        report(ctx, "replayed: " + row_what(row2, v2), rep)
+        return
     if rep.get("kind") == "trace":
         text = one_trace(ctx, binp, drv, rep)
         ok, matched, res = validate(ctx, text, "replay")
